@@ -2502,6 +2502,10 @@ public:
         packedWord = 0;
       }
     }
+    if (value.empty()) {
+      // The empty string still has its length word.
+      genData(packedWord);
+    }
     // Load the address of the string.
     switch (reg) {
     case Reg::A: genLDAC(label); break;
